@@ -29,21 +29,77 @@ NameFlateDecode == <<70, 108, 97, 116, 101, 68, 101, 99, 111, 100, 101>>
 NamePredictor == <<80, 114, 101, 100, 105, 99, 116, 111, 114>>
 NameColumns == <<67, 111, 108, 117, 109, 110, 115>>
 
-\* Decoded content of a structural stream (XRef / ObjStm): no filter, or FlateDecode (stored deflate
-\* blocks only - real Huffman-coded deflate is outside the specification) optionally with a PNG
-\* predictor (Predictor 10-15, Columns; Colors 1, BitsPerComponent 8) in a DecodeParms dictionary.
+CodX == INSTANCE CodecsExt
+
+NameASCIIHexDecode == <<65, 83, 67, 73, 73, 72, 101, 120, 68, 101, 99, 111, 100, 101>>
+NameASCII85Decode == <<65, 83, 67, 73, 73, 56, 53, 68, 101, 99, 111, 100, 101>>
+NameRunLengthDecode == <<82, 117, 110, 76, 101, 110, 103, 116, 104, 68, 101, 99, 111, 100, 101>>
+NameLZWDecode == <<76, 90, 87, 68, 101, 99, 111, 100, 101>>
+NameColors == <<67, 111, 108, 111, 114, 115>>
+NameBitsPerComponent == <<66, 105, 116, 115, 80, 101, 114, 67, 111, 109, 112, 111, 110, 101, 110, 116>>
+NameEarlyChange == <<69, 97, 114, 108, 121, 67, 104, 97, 110, 103, 101>>
+
+\* Decoded content of a structural stream (XRef / ObjStm), ISO 32000-1 7.4: Filter is a name or an array of names
+\* (applied in that order), DecodeParms a dictionary (one filter) or an array parallel to the filters with
+\* dictionaries or null.  Specified filters: FlateDecode (stored deflate blocks only - real Huffman-coded deflate
+\* is outside the specification), LZWDecode, ASCIIHexDecode, ASCII85Decode, RunLengthDecode; after Flate/LZW the
+\* predictor of the parameter dictionary is undone: 1 none, 2 TIFF (8-bit components), 10-15 PNG with
+\* Colors x BitsPerComponent x Columns (rows are whole bytes, the left neighbour is one pixel but at least one
+\* byte away).
+FilterNamesOf(d) ==
+    IF ~Has(d, NameFilter) THEN [ok |-> TRUE, f |-> <<>>]
+    ELSE LET f == d[NameFilter] IN
+         IF f.k = "name" THEN [ok |-> TRUE, f |-> <<f.v>>]
+         ELSE IF f.k = "arr" /\ \A i \in 1..Len(f.v) : f.v[i].k = "name" THEN [ok |-> TRUE, f |-> [i \in 1..Len(f.v) |-> f.v[i].v]]
+         ELSE [ok |-> FALSE, f |-> <<>>]
+
+\* parameter object of filter i of n: a dictionary, or ONull (none); [k |-> "bad"] when DecodeParms is ill-formed
+ParmsOf(d, i, n) ==
+    IF ~Has(d, NameDecodeParms) THEN ONull
+    ELSE LET p == d[NameDecodeParms] IN
+         IF p.k = "null" THEN ONull
+         ELSE IF p.k = "dict" THEN (IF n = 1 THEN p ELSE [k |-> "bad"])
+         ELSE IF p.k = "arr" THEN (IF i > Len(p.v) THEN ONull ELSE IF p.v[i].k \in {"dict", "null"} THEN p.v[i] ELSE [k |-> "bad"])
+         ELSE [k |-> "bad"]
+
+\* integer parameter with default; -1 when present but not a small non-negative integer (or absurdly large)
+ParmNum(p, name, default) ==
+    IF p.k # "dict" \/ ~Has(p.v, name) THEN default
+    ELSE IF IntSmall(p.v[name]) /\ IntVal(p.v[name]) <= 1000000 THEN IntVal(p.v[name]) ELSE 0 - 1
+
+NoData == [ok |-> FALSE, data |-> <<>>]
+UnpredictStruct(x, p) ==
+    LET pred == ParmNum(p, NamePredictor, 1) colors == ParmNum(p, NameColors, 1)
+        bpc == ParmNum(p, NameBitsPerComponent, 8) columns == ParmNum(p, NameColumns, 1)
+        bits == colors * bpc
+        bpp == IF (bits + 7) \div 8 < 1 THEN 1 ELSE (bits + 7) \div 8
+        rowlen == (columns * bits + 7) \div 8
+    IN IF p.k = "bad" \/ pred < 0 \/ colors < 1 \/ columns < 1 \/ bpc \notin {1, 2, 4, 8, 16} THEN NoData
+       ELSE IF pred = 1 THEN [ok |-> TRUE, data |-> x]
+       ELSE IF pred = 2 THEN (IF bpc = 8 THEN CodX!TiffDecode(x, colors, colors * columns) ELSE NoData)     \* other widths: not specified here
+       ELSE IF pred \in 10..15 THEN (LET u == Cod!PngDecode(x, bpp, rowlen) IN [ok |-> u.ok, data |-> u.data])
+       ELSE NoData
+
+DecodeStageStruct(x, name, p) ==
+    IF name = NameFlateDecode THEN (LET z == Cod!ZInflateStored(x) IN IF z.ok THEN UnpredictStruct(z.data, p) ELSE NoData)
+    ELSE IF name = NameLZWDecode THEN
+        (LET early == ParmNum(p, NameEarlyChange, 1)
+             z == IF early \in {0, 1} THEN Cod!LzwDecode(x, early) ELSE NoData
+         IN IF z.ok THEN UnpredictStruct(z.data, p) ELSE NoData)
+    ELSE IF p.k = "bad" THEN NoData
+    ELSE IF name = NameASCIIHexDecode THEN CodX!AHxDecode(x)
+    ELSE IF name = NameASCII85Decode THEN (LET z == Cod!A85Decode(x) IN [ok |-> z.ok, data |-> z.data])
+    ELSE IF name = NameRunLengthDecode THEN CodX!RLDecode(x)
+    ELSE NoData
+
 StructStreamData(sv) ==
-    LET d == sv.v IN
-    IF ~Has(d, NameFilter) THEN [ok |-> TRUE, data |-> sv.w]
-    ELSE IF d[NameFilter] # OName(NameFlateDecode) THEN [ok |-> FALSE, data |-> <<>>]
-    ELSE LET z == Cod!ZInflateStored(sv.w) IN
-         IF ~z.ok THEN [ok |-> FALSE, data |-> <<>>]
-         ELSE IF ~Has(d, NameDecodeParms) THEN [ok |-> TRUE, data |-> z.data]
-         ELSE LET p == d[NameDecodeParms] IN
-              IF ~(p.k = "dict" /\ Has(p.v, NamePredictor) /\ IntSmall(p.v[NamePredictor])) THEN [ok |-> FALSE, data |-> <<>>]
-              ELSE IF IntVal(p.v[NamePredictor]) < 10 THEN [ok |-> IntVal(p.v[NamePredictor]) = 1, data |-> z.data]
-              ELSE IF ~(Has(p.v, NameColumns) /\ IntSmall(p.v[NameColumns]) /\ IntVal(p.v[NameColumns]) >= 1) THEN [ok |-> FALSE, data |-> <<>>]
-              ELSE LET u == Cod!PngDecode(z.data, 1, IntVal(p.v[NameColumns])) IN [ok |-> u.ok, data |-> u.data]
+    LET d == sv.v
+        fn == FilterNamesOf(d)
+        n == Len(fn.f)
+    IN IF ~fn.ok THEN NoData
+       ELSE LET z == FoldLeft(LAMBDA acc, i : IF acc.ok THEN DecodeStageStruct(acc.data, fn.f[i], ParmsOf(d, i, n)) ELSE acc,
+                              [ok |-> TRUE, data |-> sv.w], [i \in 1..n |-> i])
+            IN [ok |-> z.ok, data |-> z.data]
 
 IsCmt(it) == it.it = "cmt"
 IsKw(it, kw) == it.it = "kw" /\ it.v = kw
